@@ -103,6 +103,16 @@ def validate_time_x(x, times=None, n_features=None, cast_scalar=False):
     return x
 
 
+def _isnan_scalar(value, param_name):
+    """isnan of a Python scalar; integers that do not fit a 64-bit number are refused."""
+    try:
+        return bool(isnan(value))
+    except OverflowError:
+        raise ValueError(
+            f"'{param_name}' is an integer outside the 64-bit range and cannot be used as a number"
+        )
+
+
 def validate_float_or_int(value, param_name, optional=False):
     """
     Validates whether a given value is a float or an integer, and not nan.
@@ -133,13 +143,13 @@ def validate_float_or_int(value, param_name, optional=False):
     if not isinstance(value, (float, int)):
         try:
             value = float(value)
-        except TypeError:
+        except (TypeError, OverflowError):
             its_type = type(value)
             raise ValueError(
                 f"'{param_name}' should be a positive integer or float number but is {its_type}"
             )
 
-    if isnan(value):
+    if _isnan_scalar(value, param_name):
         raise ValueError(f"'{param_name}' should be a non-NaN float number")
     return value
 
@@ -174,7 +184,7 @@ def validate_positive_float(value, param_name, optional=False):
 
     try:
         value = float(value)
-    except (TypeError, ValueError):
+    except (TypeError, ValueError, OverflowError):
         its_type = type(value)
         raise ValueError(f"'{param_name}' should be a float number but is {its_type}")
 
@@ -226,13 +236,13 @@ def validate_float(value, param_name, optional=False):
     if not isinstance(value, (float, int)):
         try:
             value = float(value)
-        except TypeError:
+        except (TypeError, OverflowError):
             its_type = type(value)
             raise ValueError(
                 f"'{param_name}' should be a float number but is {its_type}"
             )
 
-    if isnan(value):
+    if _isnan_scalar(value, param_name):
         raise ValueError(f"'{param_name}' should be a non-NaN float number")
     return value
 
@@ -313,7 +323,10 @@ def validate_array(iterable, name, optional=False, ndim=None):
     if hasattr(iterable, "todense"):
         array = asarray(iterable.todense(), dtype=float)
     elif isinstance(iterable, Iterable):
-        array = asarray(iterable, dtype=float)
+        try:
+            array = asarray(iterable, dtype=float)
+        except OverflowError:
+            raise ValueError(f"'{name}' contains an integer too large for a float.")
     else:
         raise TypeError(
             f"'{name}' should be iterable or sparse, got {type(iterable)} instead."
@@ -437,13 +450,19 @@ def validate_float_or_iterable_numerical(value, name, optional=False, positive=F
         return None
 
     if isinstance(value, (int, float)):
-        value = float(value)
+        try:
+            value = float(value)
+        except OverflowError:
+            raise ValueError(f"{name} is an integer too large for a float.")
         if positive and value < 0:
             raise ValueError(f"{name} should be a non-negative number or array")
         return value
 
     if isinstance(value, Iterable) and not isinstance(value, str):
-        result = asarray(value, dtype=float)
+        try:
+            result = asarray(value, dtype=float)
+        except OverflowError:
+            raise ValueError(f"{name} contains an integer too large for a float.")
         if positive and (result < 0).any():
             raise ValueError(f"All elements in {name} should be non-negative")
         return result
@@ -472,7 +491,10 @@ def validate_1d(x):
     ValueError
         If `x` cannot be cast to a JAX array with exactly 1 dimension.
     """
-    x = asarray(x, dtype=float)
+    try:
+        x = asarray(x, dtype=float)
+    except OverflowError:
+        raise ValueError("`x` contains an integer too large for a float.")
 
     # Add an extra dimension if x is a scalar
     if x.ndim == 0:
